@@ -1,0 +1,27 @@
+//! Verification hooks. This module only exists when the crate is compiled
+//! with `--cfg crrl_verif`; it is not part of the normal library.
+
+use core::sync::atomic::{AtomicU64, Ordering};
+
+static STEPS: AtomicU64 = AtomicU64::new(0);
+
+/// Maximum number of loop iterations tolerated between two calls to
+/// `steps_take()`; exceeding it triggers a panic (so that a non-terminating
+/// loop becomes a deterministic, observable event).
+pub const STEP_CAP: u64 = 1_000_000;
+
+/// Count one iteration of a data-dependent loop.
+#[inline]
+pub fn tick() {
+    let n = STEPS.fetch_add(1, Ordering::Relaxed) + 1;
+    if n > STEP_CAP {
+        STEPS.store(0, Ordering::Relaxed);
+        panic!("verif: step budget exceeded");
+    }
+}
+
+/// Get the number of iterations counted since the previous call, and
+/// reset the counter.
+pub fn steps_take() -> u64 {
+    STEPS.swap(0, Ordering::Relaxed)
+}
